@@ -4,6 +4,7 @@ import G3D.Props.C04
 import G3D.Proofs.BodySoundSets
 import G3D.Proofs.K5
 import G3D.Proofs.K3
+import G3D.Proofs.BridgeExact
 /-! # C02 — flat primitive × ConvexPolygon / ConvexPolyhedron
     Full for the five flat × polygon pairs in both argument orders (kernels K0 and K1 are proved):
     the result denotes exactly f ∩ hull(vertices).  For polyhedra the proved direction is soundness of
@@ -79,5 +80,23 @@ theorem exact_hypothesis_decidable (B : Polyhedron) (h : B.exactHypB = true) : B
     coplanar triangles the Line handler returns only part of the intersection (the real library behaves identically) -/
 theorem coplanar_neighbours_break_exactness :
     ¬ ExactB (interLinePolyhedron lineTop splitCubeE) lineTop.den (BodyDen splitCubeE) := splitCubeE_line_not_exact
+
+
+/-! ### the hypothesis is met by what the constructor stores -/
+/-- **bridge**: take a Valid body `B0` without coplanar neighbouring faces (a convex polyhedron given by its maximal faces) and
+    feed its faces to the constructor in ANY order, with ANY start vertex and EITHER orientation: whenever the constructor
+    accepts, the stored body is Valid and meets `ExactHyp` — so all five flat × polyhedron handlers are exact on it -/
+theorem constructed_polyhedron_meets_hypothesis (B0 : Polyhedron) (hV : B0.Valid) (hloc : B0.FaceLocal)
+    (F input : List Polygon) (hperm : List.Perm F B0.faces) (hrel : List.Forall₂ Reoriented F input)
+    (B : Polyhedron) (h : Polyhedron.mk? input = .ok B) : B.Valid ∧ B.ExactHyp :=
+  Polyhedron.mk?_reoriented_exactHyp_of_ok B0 hV hloc F input hperm hrel B h
+
+/-- … hence exactness for every constructed body, stated without `ExactHyp` -/
+theorem inter_flat_constructed_polyhedron_exact (B0 : Polyhedron) (hV : B0.Valid) (hloc : B0.FaceLocal)
+    (F input : List Polygon) (hperm : List.Perm F B0.faces) (hrel : List.Forall₂ Reoriented F input)
+    (B : Polyhedron) (h : Polyhedron.mk? input = .ok B) (f : Geo) (hf : f.WF) :
+    ExactW (inter (.flat f) (.polyhedron B)) f.den (InHull B.verts) ∧
+    ExactW (inter (.polyhedron B) (.flat f)) f.den (InHull B.verts) :=
+  inter_flat_polyhedron_exact f hf B (constructed_polyhedron_meets_hypothesis B0 hV hloc F input hperm hrel B h).2
 
 end G3D.Props.C02
